@@ -489,3 +489,41 @@ def section_creator(recipe, s):
 def default_visible(f):
     """Is the PEL shown with no selection option (peltool default)?"""
     return f["serviceable"] and not f["hidden"]
+
+
+def field_offsets(recipe):
+    """[(absolute offset, width, name)] of every length / count / flag / id
+    field – the places where a corrupted byte changes how the rest is read."""
+    out = [(0, 2, "PH.id"), (2, 2, "PH.len"), (27, 1, "PH.sectionCount"), (24, 1, "PH.creator"),
+           (48, 2, "UH.id"), (50, 2, "UH.len"), (50 + 8, 1, "UH.severity"), (48 + 8 + 10, 2, "UH.action")]
+    for (sid, start, end), s in zip(section_offsets(recipe)[2:], recipe["sections"]):
+        out += [(start, 2, sid + ".id"), (start + 2, 2, sid + ".len"), (start + 4, 1, sid + ".ver"),
+                (start + 5, 1, sid + ".subtype"), (start + 6, 2, sid + ".comp")]
+        b = start + 8
+        k = s["kind"]
+        if k == "src":
+            out += [(b + 1, 1, "src.flags"), (b + 3, 1, "src.wordcount"), (b + 6, 2, "src.size"), (b + 40, 2, "src.asciitype")]
+            if s.get("callouts"):
+                c0 = b + 72
+                out += [(c0, 1, "co.id"), (c0 + 2, 2, "co.wordlen")]
+                p = c0 + 4
+                for c in s["callouts"]:
+                    cb = _callout_bytes(c)
+                    out += [(p, 1, "callout.size"), (p + 1, 1, "callout.flags"), (p + 3, 1, "callout.loclen")]
+                    q = p + 4 + cb[3]
+                    if "fru" in c:
+                        out += [(q, 2, "fru.type"), (q + 2, 1, "fru.size"), (q + 3, 1, "fru.flags")]
+                        q += cb[q - p + 2]
+                    if "pce" in c:
+                        out += [(q, 2, "pce.type"), (q + 2, 1, "pce.size"), (q + 3, 1, "pce.flags")]
+                        q += cb[q - p + 2]
+                    if "mru" in c:
+                        out += [(q, 2, "mru.type"), (q + 2, 1, "mru.size"), (q + 3, 1, "mru.flags")]
+                    p += len(cb)
+        elif k == "eh":
+            out += [(b + 67, 1, "eh.symlen")]
+        elif k == "lp":
+            out += [(b + 2, 1, "lp.namelen"), (b + 3, 1, "lp.count")]
+        elif k == "ed":
+            out += [(b, 1, "ed.creator")]
+    return out
